@@ -52,6 +52,13 @@ def gen_string(rng):
         if which == 2:
             return "other", "$a = { 41 42 43 [1-2] 44 }", None, [b"ABCxD", b"ABCxyD"]
         return "other", "$a = /xy+z/", None, [b"xyz", b"xyyz", b"xyyyyz"]
+    if k == 9 and rng.chance(1, 2):     # Raw and NULLABLE: inside the known-finding class C14-nullable-regex-zero-length
+        which = rng.below(3)
+        if which == 0:
+            return "rawnull", "$a = /b*/", None, [b"aab", b"bb", b"a", b"abba"]
+        if which == 1:
+            return "rawnull", "$a = /[0-9]*x?/", None, [b"12x", b"x", b"ab", b"7"]
+        return "rawnull", "$a = /a?b?/", None, [b"ab", b"ba", b"cc", b"a"]
     which = rng.below(4)    # Raw: no literal can be extracted
     if which == 0:
         return "raw", "$a = /[a-c]{2}/", None, [b"ab", b"ca", b"bbb", b"abcabc"]
@@ -113,14 +120,17 @@ class C14(Prop):
     CASE_HEADER = ("From Boreal Require Import Base.Prelude Base.ListX Base.Bytes Model.Literals Model.AcScan "
                    "Model.Limits.")
     HARNESS_BINS = ("c14",)
-    KF = {}
+    KF = {1: "C14-nullable-regex-zero-length"}
     RULE = ("the string under test is scanned ALONE without limit (reference list U, N = |U|) and then, under the "
             "limit, INSIDE a rule set (5/8 of the cases: other namespaces, true / false global rules, private rules "
             "and private strings with their own matching strings before and after it); atomized hex / regex strings "
             "include patterns whose single atom hit yields a batch of matches (`/a.{0,2}bb/`, `{ 61 [0-2] 62 62 }`) "
             "so that the limit (1, 2, N-1 ...) is crossed inside one batch; for text strings every reported record "
             "must be an occurrence of one of THAT string's encodings (Spec/TextSpec.v), for the other kinds a member "
-            "of U. Per matcher kind (text strings under all modifier shapes = MatcherKind::Literals, fully modelled; raw "
+            "of U. Layouts include the same page mapped several times (matches at equal "
+            "region-relative offsets in consecutive regions); for text strings the unlimited list must be complete "
+            "(the specified offsets of every fetched region). Nullable raw regexes (`/b*/` ...) are generated inside "
+            "the known-finding class C14-nullable-regex-zero-length. Per matcher kind (text strings under all modifier shapes = MatcherKind::Literals, fully modelled; raw "
             "regexes = scan_single_variable loop modelled, the regex read off the unlimited run; atomized hex/regex "
             "strings = checked against the specification only): repetitive inputs with N true matches, direct and "
             "fragmented (1-4 regions, failing fetches), match_max_length in {0, 1, len-1, len, len+1, 2|m|}, "
@@ -134,7 +144,9 @@ class C14(Prop):
                "contract of aho-corasick find_overlapping_iter (Model/Ac.v)"]
     ASSUMPTIONS = ["regex and hex matchers are not modelled here (C02/C03): their unlimited match list is taken from the "
                    "implementation and only the limit/record contract is checked on it",
-                   "string_max_nb_matches = 0 is excluded (degenerate)"]
+                   "string_max_nb_matches = 0 is excluded (degenerate)",
+                   "whether a regex is nullable is declared by the generator (fixed list of patterns); the class also "
+                   "requires a zero-length match in the output and every other clause of the property to hold"]
 
     def translators(self, ctx):
         from translators import consts
@@ -152,8 +164,18 @@ class C14(Prop):
     def gen_case(self, rng):
         kind, decl, d, seeds = gen_string(rng)
         reps = rng.choice([1, 2, 3, 5, 8, 12])
-        if rng.chance(1, 2):
+        lay = rng.below(8)
+        if lay < 3:
             inp = {"mem": gen_mem(rng, seeds, reps).hex()}
+        elif lay == 3:
+            # the same page mapped several times: matches at equal region-relative offsets in consecutive regions
+            page = (rng.bytes(rng.range(0, 3), b" .-") + rng.choice(seeds) + rng.bytes(rng.range(0, 3), b" .-"))[:60]
+            addr = rng.choice([0, 16, 4096])
+            regs = []
+            for i in range(rng.range(2, 4)):
+                regs.append({"start": addr, "hex": page.hex(), "fail": False})
+                addr += len(page) + rng.choice([0, 0, 7, 100])
+            inp = {"regions": regs}
         else:
             regs, addr = [], rng.choice([0, 0, 16, 4096, 1 << 32])
             for i in range(rng.range(1, 4)):
@@ -249,7 +271,7 @@ class C14(Prop):
         kinds = a.get("kinds") or []      # the run of the string alone: its own matcher kind
         kind = case["kind"]
         actual = kinds[0] if kinds else "?"
-        expected = {"text": "Literals", "raw": "Raw", "other": "Atomized"}[kind]
+        expected = {"text": "Literals", "raw": "Raw", "rawnull": "Raw", "other": "Atomized"}[kind]
         ctx.count("actual_kind=%s" % actual)
         if actual != expected:
             # the generator's guess about the matcher kind is wrong: fall back to spec-only checking
@@ -258,7 +280,8 @@ class C14(Prop):
         u = string_matches(a, "r", "a")
         t = string_matches(b, "r", "a")
         probe = any(r["name"] == "probe" for r in b["rules"])
-        gk = "(KText %s)" % g_decl(case["tdecl"]) if kind == "text" else "KRaw" if kind == "raw" else "KOther"
+        gk = ("(KText %s)" % g_decl(case["tdecl"]) if kind == "text" else "KRaw" if kind == "raw"
+              else "KRawNullable" if kind == "rawnull" else "KOther")
         prm = "{| p_match_max_length := %d; p_max_nb_matches := %d |}" % (out["maxlen"], out["lim"])
         return "C14_case %s %s %s %d %s %s %s" % (gk, g_regions(case_regions(case)), prm, UNLIMITED,
                                                   glist(g_smatch(m) for m in u), glist(g_smatch(m) for m in t),
